@@ -171,7 +171,11 @@ func init() {
 		if c.Thorough {
 			nt = 3000
 		}
-		return c.ValidateTraces(nt, drive.Opts{Steps: 40, MaxNodes: 24, Resets: false, MaxBPs: 2, ValueCap: 30, Fanout: true}, "dag")
+		if err := c.ValidateTraces(nt, drive.Opts{Steps: 40, MaxNodes: 24, Resets: false, MaxBPs: 2, ValueCap: 30, Fanout: true}, "dag"); err != nil {
+			return err
+		}
+		// the repository's own tests, run with the hooks on, as a source of traces
+		return c.HarvestRepoTests()
 	})
 }
 
